@@ -69,6 +69,7 @@ class Opts:
     name_clash: bool = False        # property names that class-case to a schema name / parent prefix (F36, F37)
     component_params: bool = False  # components.parameters shared through $ref by several operations (arrays of inline enums, inline objects)
     multi_2xx: bool = False         # several of 200/201/202/204 with different bodies, listed in any order
+    multi_media_resp: bool = False  # a 2xx response with several media types of different python types (Content-Type dispatch)
 
 
 def _prim(r: random.Random, o: Opts, allow_enum=True) -> dict:
@@ -393,6 +394,12 @@ def gen_responses(r: random.Random, o: Opts, schemas: dict) -> dict:
                 continue
             if r.random() < 0.85 or not o.text_binary:
                 content = {"application/json": {"schema": gen_body_schema(r, o, schemas)}}
+                if o.multi_media_resp and r.random() < 0.35:
+                    extra = r.choice([("text/plain", {"type": "string"}), ("application/vnd.acme.v2+json", gen_body_schema(r, o, schemas)),
+                                      ("application/problem+json", {"type": "object", "properties": {"title": {"type": "string"}, "status": {"type": "integer"}}})])
+                    content[extra[0]] = {"schema": extra[1]}
+                    if r.random() < 0.4:
+                        content = dict(reversed(list(content.items())))
             else:
                 content = {"text/plain": {"schema": {"type": "string"}}}
             resp[c] = {"description": f"status {c}", "content": content}
